@@ -130,7 +130,13 @@ def make_args(kind, m, r, dt, p=None):
         return (rnd(tuple(yl.shape)), [rnd(tuple(h.shape)) for h in yh])
     if kind == 'idtcwt':
         yl, yh = DTCWTForward(J=2).double()(torch.zeros(1, C, H, W, dtype=torch.float64))
-        return (rnd(tuple(yl.shape)), [rnd(tuple(h.shape)) for h in yh])
+        hs = [rnd(tuple(h.shape)) for h in yh]
+        # half of the pyramids carry a placeholder level the way the forward transform hands them out (0-dim tensor for a skipped
+        # level) or the documented empty tensor - in a LIST the caller keeps using afterwards
+        k = int(r.integers(4))
+        if k == 0: hs[int(r.integers(len(hs)))] = torch.tensor(0.0, dtype=dt)
+        elif k == 1: hs[int(r.integers(len(hs)))] = torch.tensor([], dtype=dt)
+        return (rnd(tuple(yl.shape)), hs)
 
 def flatten(o):
     if torch.is_tensor(o): return [o]
@@ -294,8 +300,8 @@ def oracle_run(cfg):
                     state1 = m.state_dict()
                     if set(state0) != set(state1) or any(state0[k].dtype != state1[k].dtype or not torch.equal(state0[k], state1[k]) for k in state0):
                         return dict(detail='%s(%s): the call (input dtype %s) changed the module\'s parameters/buffers' % (kind, p, dt))
-                    if not same(args, before):
-                        return dict(detail='%s(%s): an argument tensor was modified by the call' % (kind, p))
+                    if not same(args, before) or (isinstance(args, tuple) and [type(t) for t in args[1]] != [type(t) for t in before[1]]):
+                        return dict(detail='%s(%s): an argument tensor or an entry of the coefficient list was modified by the call' % (kind, p))
                     if isinstance(args, tuple) and (len(args[1]) != len(before[1])):
                         return dict(detail='%s: the coefficient list was modified' % kind)
                     log.append((kind, p, mk, d0, dt, before, out, grad))
